@@ -3,7 +3,7 @@ import numpy as np
 import scipy.linalg as sl
 
 from .. import casecheck
-from ..pool import contract, metadata_problem, core_arrays
+from ..pool import contract, metadata_problem, core_arrays, value_snapshot, value_changed
 
 ASSUME = [
     'islands of spec/EigSolve.tla: Hermitian A = G^H G + 2I or G + G^H, B = C^H C + I with exact integer TT cores; guesses with full-rank interfaces',
@@ -45,7 +45,7 @@ def replay(case):
     cplx = cfg['cplx']
     kind = ('cplx' if cplx else 'real') + (':gen' if cfg['gen'] else '')
     out = []
-    snaps = [(t, [c.copy() for c in t.cores]) for t in (A, x0, xfull) + ((B,) if B is not None else ())]
+    snaps = value_snapshot((A, x0, xfull) + ((B,) if B is not None else ()))
 
     def rq(x):
         return complex((x.conj() @ Ad @ x) / (x.conj() @ Bd @ x))
@@ -160,9 +160,9 @@ def replay(case):
     except Exception as e:
         import traceback
         out.append(('exception:%s:%s' % (type(e).__name__, kind), '%r (dims %r r0 %r) %s' % (e, dims, cfg['r0'], traceback.format_exc()[-300:])))
-    for t, s in snaps:
-        if any(a.shape != b.shape or not np.array_equal(a, b) for a, b in zip(t.cores, s)):
-            out.append(('operand_changed', 'an argument of the eigen-solver was modified'))
+    why = value_changed(snaps)
+    if why:
+        out.append(('operand_changed', 'an argument of the eigen-solver was modified (%s)' % why))
     return out
 
 
